@@ -131,6 +131,9 @@ def run(ctx):
                     n.nsmap[None] = "urn:default"          # what from_xml stores for xmlns="..."
             if n.parent is None and rng.random() < 0.3:
                 n.attributes[rng.choice(["xmlns:eml", "xmlns:stmml", "xmlns:xsi", "xsi:schemaLocation"])] = "urn:own"
+            # qualified attributes (what XML import keeps in `extras`), also under a key an attribute uses too
+            if rng.random() < 0.25:
+                n.extras[rng.choice(["xml:lang", "xsi:schemaLocation", "xsi:type", "id", "scope"])] = rng.choice(["en", "urn:a urn:b", 'v"<&'])
         # children attached through the public `children` setter / list append carry no back link: drop some parent links
         if rng.random() < 0.2:
             for n in walk(root):
